@@ -544,6 +544,9 @@ func (c *Check) scopeProvenance() {
 	c.noRequestMemo()
 	c.leaseClosedRouting("R4")
 	c.shellOnlyOnActiveLease("R4")
+	// the lease id the gateway assembled scopes the cluster calls through the namespace derived from it: that
+	// derivation covers every field of the id, the owner included (shared with C11-R4)
+	c.leaseNamespaceRule("R4")
 	// "valid" on chain means never revoked: a genesis export / import cycle must not turn revoked certificates valid
 	// (shared with C17-R3)
 	c.certGenesisRoundTrip("R2")
